@@ -1,6 +1,15 @@
 #!/bin/sh
-# offline build of the Lean models, lemmas, property theorems and the compiled model drivers
-cd "$(dirname "$0")/lean" || exit 2
-/venv/bin/python -c 'import sys; sys.path.insert(0, ".."); from harness import tables; print("tables:", tables.generate())' || exit 1
-lake build Pycel || exit 1
-for d in $(sed -n 's/^name = "\(drv_c[0-9]*\)"/\1/p' lakefile.toml); do lake build "$d" || exit 1; done
+# Offline build: regenerate the tables from /repo, then build, for every check registered in MANIFEST.json, its
+# property theorems (with the models and lemmas they import) and its compiled model driver.
+cd "$(dirname "$0")" || exit 2
+/venv/bin/python -c 'import sys; sys.path.insert(0, "."); from harness import tables; print("tables:", tables.generate())' || exit 1
+PROPS=$(/venv/bin/python -c "import json; print(' '.join(c['property_id'] for c in json.load(open('MANIFEST.json'))['checks']))")
+cd lean || exit 2
+TARGETS=""
+for p in $PROPS; do
+  lc=$(echo "$p" | tr 'A-Z' 'a-z')
+  TARGETS="$TARGETS Pycel.Props.$p drv_$lc"
+done
+echo "building:$TARGETS"
+# shellcheck disable=SC2086
+lake build $TARGETS
